@@ -325,3 +325,12 @@ Example C18_example_max_below_backoff :
   (runs (run 2000000) = 3%nat /\ exists fe, res (run 2000000) = RetErr fe /\ main fe = ERetriesExceeded) /\
   (runs (run 0) = 1%nat /\ exists fe, res (run 0) = RetErr fe /\ main fe = EWaitExceedsDeadline).
 Proof. vm_compute. repeat split; try reflexivity; eexists; split; reflexivity. Qed.
+
+(* limits beyond the point where nextWait saturates (n >= 63): a permanently failing operation
+   stops after exactly 64, 70, 100 runs, Forever is still going after 100 *)
+Example C18_example_limit_past_63 :
+  let hist := repeat (StRun (Rec 1%nat)) 120 in
+  map (fun r => runs (retry_run r 2 None (Rec 0%nat) hist)) [63; 64; 65; 70; 100; -1] =
+    [63; 64; 65; 70; 100; 121]%nat /\
+  exists fe, res (retry_run 64 2 None (Rec 0%nat) hist) = RetErr fe /\ main fe = ERetriesExceeded.
+Proof. vm_compute. split; [reflexivity|]. eexists. split; reflexivity. Qed.
